@@ -14,7 +14,7 @@
 use std::cell::RefCell;
 use std::fmt::Debug;
 use std::fs::File;
-use std::io::Read;
+use std::io::{Read, Write};
 use std::path::{Path, PathBuf};
 use std::rc::Rc;
 
@@ -325,6 +325,12 @@ impl Builtins {
                 if let &Value::P(Primitive::Str(ref c_type)) = c_type_val.as_ref() {
                     let stdout = env.borrow().stdout();
                     match env.borrow().converter_registry.get_converter(c_type) { Some(c) => {
+                        // Convert into a buffer first so that a failed conversion
+                        // never creates or truncates the output artifact.
+                        let mut buf: Vec<u8> = Vec::new();
+                        if let Err(e) = c.convert(Rc::new(val), &mut buf) {
+                            return Err(Error::new(format!("{}", e).into(), pos.clone()));
+                        }
                         let mut writer: Box<dyn std::io::Write> = match write_path {
                             Some(p) => {
                                 let p = p.with_extension(c.file_ext());
@@ -332,9 +338,7 @@ impl Builtins {
                             }
                             None => Box::new(stdout),
                         };
-                        if let Err(e) = c.convert(Rc::new(val), &mut writer) {
-                            return Err(Error::new(format!("{}", e).into(), pos.clone()));
-                        }
+                        writer.write_all(&buf)?;
                         return Ok(());
                     } _ => {
                         return Err(Error::new(
